@@ -5,3 +5,4 @@ import Properties.C01
 import Properties.C02
 import Properties.C05
 import Properties.C10
+import Properties.C15
